@@ -14,14 +14,17 @@ mkdir -p /tmp/vs
 git -C /repo worktree add -q --detach "$WT" HEAD || exit 2
 trap 'git -C /repo worktree remove --force "$WT" >/dev/null 2>&1; rm -rf "$WT"' EXIT
 cmd=$(python3 -c "import json,sys; print(json.load(open('$D/meta.json'))['demo_cmd'])")
-cp -r "$D/demo/." "$WT/"
 rundemo() { (cd "$WT" && timeout 600 bash -c "$cmd" >"$WT/.demo.out" 2>&1); echo $?; }
-pre=0; for i in 1 2 3; do r=$(rundemo); [ "$r" != 0 ] && pre=$r; done
 if ! git -C "$WT" apply "$D/patch.diff"; then echo '{"ok":false,"why":"patch does not apply"}'; exit 1; fi
 build=0; (cd "$WT" && go build ./... >"$WT/.build.out" 2>&1) || build=1
-suite=$(cd "$WT" && go test -vet=off -count=1 -p 6 ./... 2>&1 | grep -E '^(--- FAIL|FAIL|panic)' | grep -v 'cloudwatch' | grep -v '^FAIL$' | head -20)
+# full suite with the change and WITHOUT the demo: only the three always-failing cloudwatch tests may fail
+suite=$(cd "$WT" && go test -vet=off -count=1 -p 6 ./... 2>&1 | grep -E '^(--- FAIL|FAIL|panic)' | grep -vE 'TestSendMetrics |TestSendHistogram |TestSendMetricDimensions |pkg/backends/cloudwatch' | grep -v '^FAIL$' | head -20)
+cp -r "$D/demo/." "$WT/"
 fails=0; for i in 1 2 3 4 5; do r=$(rundemo); [ "$r" != 0 ] && fails=$((fails+1)); done
 tail -c 1500 "$WT/.demo.out" > /tmp/vs/last_demo_$$.txt
+git -C "$WT" apply -R "$D/patch.diff"
+pre=0; for i in 1 2 3; do r=$(rundemo); [ "$r" != 0 ] && pre=$r; done
+git -C "$WT" apply "$D/patch.diff"
 chk=""; chkrc=""
 if [ -n "$CHK" ]; then
   rm -f "$WT"/.demo.out "$WT"/.build.out
